@@ -451,6 +451,10 @@ impl WriteNode {
 
         trace!("Updating RRset");
         if let Some((owner, diff)) = &self.diff {
+            // The difference to the last published version replaces
+            // whatever an earlier change to this RRset has recorded.
+            diff.lock().unwrap().forget(owner, new_rrset.rtype());
+
             let current_rrset = if let Some(current_rrset) = rrsets
                 .get(new_rrset.rtype(), self.zone.last_published_version())
             {
@@ -568,6 +572,8 @@ impl WriteNode {
         };
 
         if let Some((owner, diff)) = &self.diff {
+            diff.lock().unwrap().forget(owner, rtype);
+
             if let Some(removed) =
                 rrsets.get(rtype, self.zone.last_published_version())
             {
